@@ -59,7 +59,8 @@ class PrefetchFamily(common.Family):
     cfg = {
         'scenario': scenario,
         'prefetch': rng.choice([1, 2, 3, 4]),
-        'bs': rng.choice([1, 2, 3, 5]),
+        # 0 = "as many as there are" (the default of _next_batch)
+        'bs': rng.choice([0, 1, 2, 3, 5]),
         'n': n,
         'ret': rng.random() < 0.6,
         'fail_at': None,
